@@ -18,21 +18,28 @@ theorem kslots_arr_set (T : Nat) {a a' : Arr} {i : Nat} {e : Elem} (h : a'.toLis
     (Cont.arr a').kslots T = ((Cont.arr a).kslots T).set i (none, maxInlineArr T, e) := by
   simp only [Cont.kslots, h, List.map_set]
 
-/-- the container handed back by an operation: standalone, unreferenced, same data -/
-def HandedBack (w w' : World) (old : Elem) : Prop :=
-  ∀ x c, old.pay = .ref x → w.cont? x = some c →
-    ∃ c', w'.cont? x = some c' ∧ c'.isInlined = false ∧ Cont.SameData c c' ∧ ∀ q, ¬ Holds w' q x
-
-/-- what `arrRemove` did to the target container -/
-def RemovedAt (w w' : World) (p : SlabID) (i : Nat) (old' : Elem) : Prop :=
-  ∃ a a' old, w.cont? p = some (.arr a) ∧ w'.cont? p = some (.arr a') ∧ a.toList[i]? = some old ∧
-    a'.toList = a.toList.eraseIdx i ∧ old'.pay = old.pay ∧ HandedBack w w' old
-
 /-- the caller-side clean-up of the index table -/
 def eraseOld (w : World) (p : SlabID) (ov : Option SlabID) : World :=
   match ov with
   | none => w
   | some o => w.setIdx p (AList.erase (w.idxOf p) o)
+
+theorem sigFrame_eraseOld (w : World) (p : SlabID) (ov : Option SlabID) (q : SlabID) :
+    SigFrame w (eraseOld w p ov) q := by
+  cases ov <;> exact SigFrame.of_conts (fun _ _ => rfl)
+
+/-- the clean-up only drops the entry of the old child -/
+theorem eraseOld_keep (w : World) (p : SlabID) (ov : Option SlabID) (q z : SlabID)
+    (h : ∀ o, ov = some o → o ≠ z) :
+    AList.find? ((eraseOld w p ov).idxOf q) z = AList.find? (w.idxOf q) z := by
+  cases ov with
+  | none => rfl
+  | some o =>
+    simp only [eraseOld, idxOf_setIdx]
+    split
+    · rename_i hpq; subst hpq
+      rw [AList.find?_erase, if_neg (h o rfl)]
+    · rfl
 
 theorem eraseOld_facts (w : World) (p : SlabID) (ov : Option SlabID) :
     (eraseOld w p ov).T = w.T ∧ (eraseOld w p ov).addr = w.addr ∧ (∀ z, (eraseOld w p ov).cont? z = w.cont? z) ∧
@@ -62,7 +69,7 @@ theorem eraseOld_facts (w : World) (p : SlabID) (ov : Option SlabID) :
 theorem arrRemove_ok {w : World} {p : SlabID} {i : Nat} {cx : Ctx} {old' : Elem} {w' : World} {cx' : Ctx}
     (H : WorldOk D w cx.ctr) (hhand : HandleOk w p)
     (h : w.arrRemove p i cx = .ok (old', w', cx')) :
-    WorldOk D w' cx'.ctr ∧ cx.ctr ≤ cx'.ctr ∧ RemovedAt w w' p i old' ∧ HandleOk w' p := by
+    WorldOk D w' cx'.ctr ∧ cx.ctr ≤ cx'.ctr ∧ RemovedAt w w' p i old' ∧ HandleOk w' p ∧ SigFrame w w' p := by
   obtain ⟨rank0, H0⟩ := H
   unfold arrRemove at h
   split at h
@@ -83,7 +90,8 @@ theorem arrRemove_ok {w : World} {p : SlabID} {i : Nat} {cx : Ctx} {old' : Elem}
           simp only [pure, Except.pure] at h
           cases h
           change WorldOk D (eraseOld w4 p ov) cx'.ctr ∧ cx.ctr ≤ cx'.ctr ∧
-            RemovedAt w (eraseOld w4 p ov) p i old' ∧ HandleOk (eraseOld w4 p ov) p
+            RemovedAt w (eraseOld w4 p ov) p i old' ∧ HandleOk (eraseOld w4 p ov) p ∧
+            SigFrame w (eraseOld w4 p ov) p
           have hpok : ArrOk w.T a cx.ctr := H0.conts p _ hpa
           obtain ⟨hold, hl, hok', hinl', hrid, _, hctr1, hsz⟩ := hpok.remove_ok H0.legal hrem
           have hks : ((Cont.arr a).kslots w.T)[i]? = some (none, maxInlineArr w.T, old) := by
@@ -152,7 +160,7 @@ theorem arrRemove_ok {w : World} {p : SlabID} {i : Nat} {cx : Ctx} {old' : Elem}
                 intro q z; simp [World.idxOf, hun'.2.2.1]
               obtain ⟨_, _, _, _, _, hcase⟩ := hun'
               rcases hcase with ⟨_, _, _, _, hnone⟩ | ⟨x, c, hov, hx, hc, _⟩
-              · have := H3.idxLive q z j (by rw [← hidx43]; exact e5 q z j hj)
+              · have := (H3.idxLive q z j (by rw [← hidx43]; exact e5 q z j hj)).1
                 rw [hnone z hz] at this; cases this
               · have hzx : x = z := by rw [hx] at hz; cases hz; rfl
                 subst hzx
@@ -189,7 +197,9 @@ theorem arrRemove_ok {w : World} {p : SlabID} {i : Nat} {cx : Ctx} {old' : Elem}
             handleOk_mutate (pc := .arr a3) (pc' := .arr a3) hr4 H5.rank hp4 (by rw [e3]; exact hp4) (fun z _ => e3 z) e1 e4
               (fun q x hq => e6 q x hq) hhand4
           refine ⟨⟨rank0, by rw [hctr4]; exact H5⟩, by omega, ⟨a, a3, old, hpa, by rw [e3]; exact hp4, hold,
-            by rw [hl3, hl], hpay, ?_⟩, hhand5⟩
+            by rw [hl3, hl], hpay, ?_⟩, hhand5,
+            (((sigFrame_setCont_shift _ _ _ _).trans (SigFrame.of_sig F3.sig p)).trans (SigFrame.of_sig hS34 p)).trans
+              (sigFrame_eraseOld _ _ _ _)⟩
           intro x c hx hc
           have hxs3 : (w3.cont? x).isSome := by rw [F3.sig.isSome, hsome2, hc]; rfl
           obtain ⟨c3, hc3⟩ := Option.isSome_iff_exists.mp hxs3
@@ -198,7 +208,7 @@ theorem arrRemove_ok {w : World} {p : SlabID} {i : Nat} {cx : Ctx} {old' : Elem}
             have hrk := H0.rank p x (holds_of_kslot hpa hks hx) (by rw [hc]; rfl)
             rw [F3.above x hxp (by omega), cont?_shiftIdx, cont?_setCont_ne _ _ _ _ hxp]; exact hc
           obtain ⟨c', hc', hni, hsd⟩ := f2 x c hx hc3'
-          refine ⟨c', by rw [e3]; exact hc', hni, hsd, ?_⟩
+          refine ⟨c', by rw [e3]; exact hc', hni, hsd.vid, hsd.storedElems, ?_⟩
           intro q hq
           obtain ⟨qc, hqc, hm⟩ := hq
           rw [e3] at hqc
@@ -230,13 +240,6 @@ theorem arrSet_final (w4 : World) (p x : SlabID) (wr : Nat) (ov : Option SlabID)
   cases ov with
   | none => rfl
   | some o => simp [h o rfl, eraseOld]
-
-/-- what `arrSet` did to the target container -/
-def SetAt (w w' : World) (p : SlabID) (i : Nat) (v : WVal) (old' : Elem) : Prop :=
-  ∃ a a' old e, w.cont? p = some (.arr a) ∧ w'.cont? p = some (.arr a') ∧ a.toList[i]? = some old ∧
-    a'.toList = a.toList.set i e ∧ old'.pay = old.pay ∧ HandedBack w w' old ∧
-    (∀ e0, v = .plain e0 → e = e0) ∧
-    (∀ x wr, v = .child x wr → e.pay = .ref x ∧ ∃ c, w'.cont? x = some c ∧ e.size = slotSize c wr)
 
 /-- after the slot `i` of `p` has been overwritten (and the ancestors notified), nobody refers to the
     container the old element referred to -/
@@ -278,7 +281,7 @@ theorem old_unreferenced {w w1 w2 w3 : World} {ctr : Nat} {rank : SlabID → Nat
 theorem arrSet_ok {w : World} {p : SlabID} {i : Nat} {v : WVal} {cx : Ctx} {old' : Elem} {w' : World} {cx' : Ctx}
     (H : WorldOk D w cx.ctr) (hhand : HandleOk w p) (hv : WValOk w p (maxInlineArr w.T) v)
     (h : w.arrSet p i v cx = .ok (old', w', cx')) :
-    WorldOk D w' cx'.ctr ∧ cx.ctr ≤ cx'.ctr ∧ SetAt w w' p i v old' ∧ HandleOk w' p := by
+    WorldOk D w' cx'.ctr ∧ cx.ctr ≤ cx'.ctr ∧ SetAt w w' p i v old' ∧ HandleOk w' p ∧ SigFrame w w' p := by
   obtain ⟨rank0, H0⟩ := H
   unfold arrSet at h
   simp only [bind, Except.bind] at h
@@ -361,7 +364,8 @@ theorem arrSet_ok {w : World} {p : SlabID} {i : Nat} {v : WVal} {cx : Ctx} {old'
                   have hunref := old_unreferenced H0 hpa hold hl (fun z hz => by rw [hn] at hz; cases hz)
                     (ContsSig.refl w) hpa (cont?_setCont_self _ _ _) (fun z hz => cont?_setCont_ne _ _ _ _ hz) F3.sig
                   change WorldOk D (eraseOld w4 p ov) cx'.ctr ∧ cx.ctr ≤ cx'.ctr ∧
-                    SetAt w (eraseOld w4 p ov) p i (.plain e) old' ∧ HandleOk (eraseOld w4 p ov) p
+                    SetAt w (eraseOld w4 p ov) p i (.plain e) old' ∧ HandleOk (eraseOld w4 p ov) p ∧
+                    SigFrame w (eraseOld w4 p ov) p
                   have hw3c : w3.setCallbackArr p i (.plain e) = w3 := rfl
                   rw [hw3c] at hun
                   obtain ⟨e1, e2, e3, e4, e5, e6, e7⟩ := eraseOld_facts w4 p ov
@@ -374,7 +378,7 @@ theorem arrSet_ok {w : World} {p : SlabID} {i : Nat} {v : WVal} {cx : Ctx} {old'
                       rw [e3] at hq
                       obtain ⟨_, _, _, _, _, hcase⟩ := hun'
                       rcases hcase with ⟨_, _, _, _, hnone⟩ | ⟨x, c, hov, hx, hc, _⟩
-                      · have := H3.idxLive q z j (by rw [← hidx43]; exact e5 q z j hj)
+                      · have := (H3.idxLive q z j (by rw [← hidx43]; exact e5 q z j hj)).1
                         rw [hnone z hz] at this; cases this
                       · have hzx : x = z := by rw [hx] at hz; cases hz; rfl
                         subst hzx
@@ -408,7 +412,9 @@ theorem arrSet_ok {w : World} {p : SlabID} {i : Nat} {v : WVal} {cx : Ctx} {old'
                     handleOk_mutate (pc := .arr a3) (pc' := .arr a3) hr4 H5.rank hp4 (by rw [e3]; exact hp4)
                       (fun z _ => e3 z) e1 e4 (fun q x hq => e6 q x hq) hhand4
                   refine ⟨⟨rank0, by rw [hctr4]; exact H5⟩, by omega, ⟨a, a3, old, e, hpa, by rw [e3]; exact hp4, hold,
-                    by rw [hl3, hl], hpay, ?_, fun e0 he0 => by cases he0; rfl, fun x wr hxw => by cases hxw⟩, hhand5⟩
+                    by rw [hl3, hl], hpay, ?_, fun e0 he0 => by cases he0; rfl, fun x wr hxw => by cases hxw⟩, hhand5,
+                    (((sigFrame_setCont _ _ _).trans (SigFrame.of_sig F3.sig p)).trans (SigFrame.of_sig hS34 p)).trans
+                      (sigFrame_eraseOld _ _ _ _)⟩
                   intro x c hx hc
                   have hxs3 : (w3.cont? x).isSome := by rw [F3.sig.isSome, hsome2, hc]; rfl
                   have hxp : x ≠ p := hpnot x hx
@@ -416,7 +422,7 @@ theorem arrSet_ok {w : World} {p : SlabID} {i : Nat} {v : WVal} {cx : Ctx} {old'
                     have hrk := H0.rank p x (holds_of_kslot hpa hks hx) (by rw [hc]; rfl)
                     rw [F3.above x hxp (by omega), cont?_setCont_ne _ _ _ _ hxp]; exact hc
                   obtain ⟨c', hc', hni, hsd⟩ := f2 x c hx hc3'
-                  refine ⟨c', by rw [e3]; exact hc', hni, hsd, ?_⟩
+                  refine ⟨c', by rw [e3]; exact hc', hni, hsd.vid, hsd.storedElems, ?_⟩
                   intro q hq
                   obtain ⟨qc, hqc, hm⟩ := hq
                   rw [e3] at hqc
@@ -541,7 +547,7 @@ theorem arrSet_ok {w : World} {p : SlabID} {i : Nat} {v : WVal} {cx : Ctx} {old'
                     · rw [hov] at h1; cases h1
                       exact slabID_beq_false (fun h => hxold o h2 h.symm)
                   suffices hgen : ∀ w6, w6 = eraseOld w4 p ov → WorldOk D w6 cx'.ctr ∧ cx.ctr ≤ cx'.ctr ∧
-                      SetAt w w6 p i (.child x wr) old' ∧ HandleOk w6 p from
+                      SetAt w w6 p i (.child x wr) old' ∧ HandleOk w6 p ∧ SigFrame w w6 p from
                     hgen _ (arrSet_final w4 p x wr ov hovne)
                   intro w6 hw6
                   subst hw6
@@ -556,7 +562,7 @@ theorem arrSet_ok {w : World} {p : SlabID} {i : Nat} {v : WVal} {cx : Ctx} {old'
                       rw [e3] at hq
                       obtain ⟨_, _, _, _, _, hcase⟩ := hun'
                       rcases hcase with ⟨_, _, _, _, hnone⟩ | ⟨o, c', hov, ho, hc', _⟩
-                      · have := H4.idxLive q z j (by rw [← hidx43]; exact e5 q z j hj)
+                      · have := (H4.idxLive q z j (by rw [← hidx43]; exact e5 q z j hj)).1
                         rw [hnone z hz] at this; cases this
                       · have hzo : o = z := by rw [ho] at hz; cases hz; rfl
                         subst hzo
@@ -611,7 +617,9 @@ theorem arrSet_ok {w : World} {p : SlabID} {i : Nat} {v : WVal} {cx : Ctx} {old'
                     handleOk_mutate (pc := .arr a3) (pc' := .arr a3) hr4 H5.rank hp4 (by rw [e3]; exact hp4)
                       (fun z _ => e3 z) e1 e4 (fun q y hq => e6 q y hq) hhand4
                   refine ⟨⟨rank', by rw [hctr4]; exact H5⟩, by have := hctr1; omega, ⟨a, a3, old, e, hpa, by rw [e3]; exact hp4,
-                    hold, by rw [hl3, hl], hpay, ?_, fun e0 he0 => (by cases he0), fun x' wr' hxw => ?_⟩, hhand5⟩
+                    hold, by rw [hl3, hl], hpay, ?_, fun e0 he0 => (by cases he0), fun x' wr' hxw => ?_⟩, hhand5,
+                    (((((SigFrame.of_sig hS1 p).trans (sigFrame_setCont _ _ _)).trans (SigFrame.of_sig F3.sig p)).trans
+                      (sigFrame_cbArr _ _ _ _ _)).trans (SigFrame.of_sig hS34 p)).trans (sigFrame_eraseOld _ _ _ _)⟩
                   · intro o c' ho hc'
                     have hos3 : (w3.cont? o).isSome := by rw [F3.sig.isSome, hsome2, hc']; rfl
                     have hop : o ≠ p := hpnot o ho
@@ -621,14 +629,25 @@ theorem arrSet_ok {w : World} {p : SlabID} {i : Nat} {v : WVal} {cx : Ctx} {old'
                       rw [cont?_setCallbackArr, F3.above o hop (by omega), cont?_setCont_ne _ _ _ _ hop, hco1 o hox]
                       exact hc'
                     obtain ⟨c'', hc'', hni, hsd⟩ := f2 o c' ho hc3'
-                    refine ⟨c'', by rw [e3]; exact hc'', hni, hsd, ?_⟩
+                    refine ⟨c'', by rw [e3]; exact hc'', hni, hsd.vid, hsd.storedElems, ?_⟩
                     intro q hq
                     obtain ⟨qc, hqc, hm⟩ := hq
                     rw [e3] at hqc
                     exact hunref o ho (by rw [cont?_setCallbackArr]; exact hos3) q
                       ((hS34.holds_iff q o).mp ⟨qc, hqc, hm⟩)
                   · cases hxw
-                    exact ⟨hepay, c1, by rw [e3]; exact hx4, by rw [he]⟩
+                    refine ⟨hepay, ?_, c1, by rw [e3]; exact hx4, by rw [he]⟩
+                    refine HandleOk.child x ⟨p, none, maxInlineArr w3.T - 2 * wr, wr⟩
+                      (by rw [e4, hh4, hinfo_setCallbackArr, if_pos rfl]) ?_ hhand5
+                    refine ⟨maxInlineArr w3.T, _, Or.inl ⟨a3, i, by rw [e3]; exact hp4, ?_, he3, rfl,
+                      by rw [e1, hT4]; simp⟩⟩
+                    rw [eraseOld_keep w4 p ov p x (fun o ho => by
+                        obtain ⟨_, _, _, _, _, hcase⟩ := uninlineIfNeeded_ok hun
+                        rcases hcase with ⟨h1, _⟩ | ⟨o', c', h1, h2, _⟩
+                        · rw [ho] at h1; cases h1
+                        · rw [ho] at h1; cases h1
+                          exact hxold o h2),
+                      hidx43, idxOf_setCallbackArr, if_pos ⟨rfl, rfl⟩]
       · cases hset
 
 end World
